@@ -323,7 +323,7 @@ def run(ctx, res):
         res.notes.append("stats._scatter_matrix not found: K21 compared through the recorded LAPACK argument only")
 
     sizes_quick = [1, 2, 3, 5, 17, 100, 1000, 10000]
-    n_sets = 40 if not thorough else 400
+    n_sets = 40 if not thorough else 1000
     lines, cases = [], []
 
     def add(line, kernel, inp, want):
@@ -433,7 +433,7 @@ def run(ctx, res):
         add(f"diag_coax {enc('b')} {enc(bad)} 5 {hexA} {w} {w}", "K22 coaxial axis2 argument", {"axis2": bad}, ("status", "ok" if st4 == "ok" else st4))
 
     # ---- K24 finite strain
-    n_F = 60 if not thorough else 1500
+    n_F = 60 if not thorough else 3000
     for k in range(n_F):
         kind = F_KINDS[k % len(F_KINDS)]
         F = make_F(rng, kind)
